@@ -64,3 +64,11 @@ Qed.
 
 Lemma nth_res_oob A (l : list A) i : length l <= i -> nth_res l i = Panic P_index.
 Proof. intros H. unfold nth_res. rewrite (proj2 (nth_error_None l i) H). reflexivity. Qed.
+
+Lemma nth_error_eq_ext A (l1 l2 : list A) : (forall i, nth_error l1 i = nth_error l2 i) -> l1 = l2.
+Proof.
+  revert l2; induction l1 as [|x l1 IH]; intros l2 H.
+  - destruct l2 as [|y l2]; [reflexivity|]. specialize (H 0). discriminate.
+  - destruct l2 as [|y l2]; [specialize (H 0); discriminate|].
+    pose proof (H 0) as H0. simpl in H0. injection H0 as ->. f_equal. apply IH. intros i. exact (H (S i)).
+Qed.
